@@ -18,7 +18,8 @@ from . import absmodel, core, tlc
 
 FEATURES = ["docstring", "future_import", "comments", "decorators", "nested_defs", "partial_annotations", "typing_import",
             "import_module_runtime", "import_alias", "import_in_function", "existing_tc_block", "star_import", "import_dotted",
-            "class_level_code", "module_level_code", "respelled_annotations", "wordy_annotations", "relative_import"]
+            "class_level_code", "module_level_code", "respelled_annotations", "wordy_annotations", "relative_import",
+            "tc_import_in_try", "tc_import_in_function"]
 
 
 def gen_source(feat):
@@ -48,6 +49,8 @@ def gen_source(feat):
         L.append("import zsh.deep")
     if "existing_tc_block" in f:
         L += ["from typing import TYPE_CHECKING", "if TYPE_CHECKING:", "    from zshapes import area"]
+    if "tc_import_in_try" in f:      # the compatibility idiom: TYPE_CHECKING bound inside a compound statement
+        L += ["try:", "    from typing import TYPE_CHECKING", "except ImportError:", "    TYPE_CHECKING = False"]
     L.append("")
     if "module_level_code" in f:
         L += ["COUNTER = [0]", ""]
@@ -82,7 +85,7 @@ def gen_source(feat):
     if "class_level_code" in f:
         L += ["    attr = 3", "    names = [n for n in ('a', 'b')]"]
     L += ["    def m(self, p, q=None):", "        return p", "", "    @staticmethod", "    def s(v):", "        return v", ""]
-    L += ["def f3(d):", "    return d", ""]
+    L += ["def f3(d):"] + (["    from typing import TYPE_CHECKING"] if "tc_import_in_function" in f else []) + ["    return d", ""]
     if "module_level_code" in f:
         L += ["COUNTER[0] = f2(1, 2)", ""]
     return "\n".join(L) + "\n"
@@ -109,13 +112,19 @@ def import_items(tree, runtime_names=None):
                 visit(node.body, "func")
             elif isinstance(node, ast.ClassDef):
                 visit(node.body, block if block != "top" else "top")
-            elif hasattr(node, "body") and isinstance(getattr(node, "body"), list):
-                visit(node.body, block)
+            else:      # try / if / with / for / while at module level: bound at run time like a plain import, but not the
+                # leading import block ("nested")
+                sub = "nested" if block == "top" else block
+                for attr in ("body", "orelse", "finalbody"):
+                    if isinstance(getattr(node, attr, None), list):
+                        visit(getattr(node, attr), sub)
+                for h in getattr(node, "handlers", []) or []:
+                    visit(h.body, sub)
     visit(tree.body, "top")
     for it in items:
         it["runtime"] = bool(runtime_names is not None and it["bound"] in runtime_names)
     for it in items:     # a name that is ALSO bound by a module-level import outside TYPE_CHECKING is served by that one at run time
-        if it["block"] == "tc" and any(o is not it and o["block"] == "top" and o["bound"] == it["bound"] for o in items):
+        if it["block"] == "tc" and any(o is not it and o["block"] in ("top", "nested") and o["bound"] == it["bound"] for o in items):
             it["runtime"] = False
     return items
 
@@ -172,10 +181,17 @@ def erase(tree, new_keys, generated_classes):
                     continue
                 out.append(node)
                 continue
-            sub = "func" if isinstance(node, (ast.FunctionDef, ast.AsyncFunctionDef)) else block
+            if isinstance(node, (ast.FunctionDef, ast.AsyncFunctionDef)):
+                sub = "func"
+            elif isinstance(node, ast.ClassDef):
+                sub = block
+            else:
+                sub = "nested" if block == "top" else block
             for attr in ("body", "orelse", "finalbody"):
                 if hasattr(node, attr) and isinstance(getattr(node, attr), list):
                     setattr(node, attr, clean(getattr(node, attr), sub) or ([ast.Pass()] if attr == "body" else []))
+            for h in getattr(node, "handlers", []) or []:
+                h.body = clean(h.body, sub) or [ast.Pass()]
             out.append(node)
         return out
     t.body = clean(t.body)
